@@ -744,6 +744,12 @@ func (c *candidateBase) AddExtension(ext CandidateExtension) error {
 		return fmt.Errorf("%w: key is empty", errParseExtension)
 	}
 
+	// "raddr" right after the candidate type introduces rel-addr/rel-port: an extension
+	// with that name cannot be told apart from it once marshalled.
+	if ext.Key == "raddr" {
+		return fmt.Errorf("%w: key %s is reserved", errParseExtension, ext.Key)
+	}
+
 	// per spec, Extensions aren't explicitly unique, we only set the first one.
 	// If the exteion is set multiple times.
 	for i := range c.extensions {
@@ -1195,6 +1201,10 @@ func unmarshalCandidateExtensions(raw string) (extensions []CandidateExtension, 
 			rawTCPTypeRaw = value
 
 			continue
+		}
+
+		if key == "raddr" {
+			return extensions, "", fmt.Errorf("%w: key %s is reserved", errParseExtension, key)
 		}
 
 		extensions = append(extensions, CandidateExtension{key, value})
